@@ -128,6 +128,9 @@ pub enum Op {
 pub enum Node {
     Var(u32),
     Const(Rat),
+    /// a finite f64 constant (bit pattern) whose exact value does not fit the i128 rational `Rat`
+    /// (very small / very large magnitude thresholds); never folded, compared through its exact value
+    FConst(u64),
     Bin(Op, u32, u32),
     Neg(u32),
 }
@@ -274,6 +277,7 @@ impl Ctx {
         match n {
             Node::Var(v) => *self.var_vals.get(&self.var_names[*v as usize]).unwrap_or_else(|| panic!("concolic: unbound variable {}", self.var_names[*v as usize])),
             Node::Const(r) => r.to_f64(),
+            Node::FConst(b) => f64::from_bits(*b),
             Node::Neg(a) => -s(*a),
             Node::Bin(op, a, b) => {
                 let (a, b) = (s(*a), s(*b));
@@ -428,6 +432,28 @@ impl Ctx {
                     Cmp::Ge => o != Less,
                     Cmp::Eq => o == Equal,
                 };
+            }
+        }
+        // exact comparison when an out-of-range float constant is involved and both sides are exactly representable doubles
+        {
+            let as_f64 = |n: &Node| -> Option<f64> {
+                match n {
+                    Node::FConst(b) => Some(f64::from_bits(*b)),
+                    Node::Const(r) if r.0.abs() < (1i128 << 53) && (r.1 & (r.1 - 1)) == 0 && r.1 <= (1i128 << 60) => Some(r.to_f64()),
+                    _ => None,
+                }
+            };
+            let (na, nb) = (self.nodes[a as usize].clone(), self.nodes[b as usize].clone());
+            if matches!(na, Node::FConst(_)) || matches!(nb, Node::FConst(_)) {
+                if let (Some(x), Some(y)) = (as_f64(&na), as_f64(&nb)) {
+                    return match k {
+                        Cmp::Lt => x < y,
+                        Cmp::Le => x <= y,
+                        Cmp::Gt => x > y,
+                        Cmp::Ge => x >= y,
+                        Cmp::Eq => x == y,
+                    };
+                }
             }
         }
         let cur = self.pair_state(a, b);
@@ -806,7 +832,14 @@ impl num_traits::NumCast for Sym {
                 return Some(Sym::rat(i as i128, 1));
             }
         }
-        Rat::from_f64(f).map(|r| with_ctx(|c| Sym(c.mk(Node::Const(r)))))
+        if !f.is_finite() {
+            return None; // like num-traits for f64 -> f64 this would succeed; the crate never casts a non-finite literal
+        }
+        match Rat::from_f64(f) {
+            Some(r) => Some(with_ctx(|c| Sym(c.mk(Node::Const(r))))),
+            // outside the range of the i128 rational: keep the exact double as an opaque constant
+            None => Some(with_ctx(|c| Sym(c.mk(Node::FConst(f.to_bits()))))),
+        }
     }
 }
 impl num_traits::Pow<Sym> for Sym {
